@@ -126,6 +126,27 @@ def err_positions(errs):
     return [x.split(":", 1)[0] for x in errs.split(",") if x]
 
 
+def split_top(sexp):
+    """the top-level elements of one parenthesised list `(a (b c) d)` -> ['a', '(b c)', 'd']"""
+    s = sexp.strip()
+    if s.startswith("(") and s.endswith(")"):
+        s = s[1:-1]
+    out, depth, cur = [], 0, []
+    for ch in s:
+        if ch == "(":
+            depth += 1
+        elif ch == ")":
+            depth -= 1
+        if ch == " " and depth == 0:
+            if cur:
+                out.append("".join(cur)); cur = []
+        else:
+            cur.append(ch)
+    if cur:
+        out.append("".join(cur))
+    return out
+
+
 def fields(line):
     return dict(kv.split("=", 1) for kv in line.split(";") if "=" in kv)
 
